@@ -319,3 +319,13 @@ Proof. intros z w. unfold geqb. rewrite andb_true_iff, !Qeq_bool_iff. reflexivit
 Lemma kronecker_exact : forall pi tr x y,
   kronecker (ExactPrims pi tr) x y = if geqb x y then (1, 0) else (0, 0).
 Proof. intros. unfold kronecker. cbn. destruct (geqb x y); reflexivity. Qed.
+
+(* ---------------- the value a scalar position receives ---------------- *)
+Lemma item_val_number : forall a, shape_ok ShScalar (shape_of_val a) = true -> shape_of_val (item_val a) = ANumber.
+Proof. intros [c z | c d data]; simpl; intro H; [reflexivity | rewrite H; reflexivity]. Qed.
+
+Lemma item_val_of_number : forall c z, item_val (VNum c z) = VNum c z.
+Proof. reflexivity. Qed.
+
+Lemma item_val_of_singleton : forall c d z, size d = 1%nat -> item_val (VArr c d [z]) = VNum c z.
+Proof. intros c d z H. simpl. rewrite H. reflexivity. Qed.
